@@ -43,6 +43,11 @@ fn top_len(m: &TrMsg) -> usize {
 
 /// Deviations for which the protocol promises detection (except with probability <= 2^-40).
 pub fn deviations(cfg: &AttackCfg, r: &RefRun, seed: u64) -> Vec<Dev> {
+    deviations_ex(cfg, r, seed, false)
+}
+
+/// `also_live`: every message deviation additionally with the live (adaptive, self-aborting) adversary.
+pub fn deviations_ex(cfg: &AttackCfg, r: &RefRun, seed: u64, also_live: bool) -> Vec<Dev> {
     let mut rng = entropy::rng(seed, 0xc04, cfg.base.seed);
     let c = cfg.c;
     let n = cfg.base.n();
@@ -58,6 +63,13 @@ pub fn deviations(cfg: &AttackCfg, r: &RefRun, seed: u64) -> Vec<Dev> {
     let mut out: Vec<Dev> = vec![];
     let mut push = |kind: String, muts: Vec<(usize, MutSpec)>, victims: Vec<usize>, out: &mut Vec<Dev>| {
         let faults: Vec<Fault> = muts.into_iter().map(|(si, m)| fault_at(c, &ss[si], FaultKind::Mutate(m))).collect();
+        if also_live {
+            out.push(Dev {
+                spec: attacked_spec(cfg, AdvMode::Live, faults.clone(), vec![], None, &r.decisions),
+                kind: format!("{kind}:live"),
+                victims: victims.clone(),
+            });
+        }
         out.push(Dev {
             spec: attacked_spec(cfg, AdvMode::Scripted, faults, vec![], None, &r.decisions),
             kind,
@@ -507,7 +519,7 @@ impl Check for C04 {
         let mut v = vec![];
         for k in 0..k {
             for sh in 0..4 {
-                v.push(json!({"seed": seed, "k": k, "shard": sh}));
+                v.push(json!({"seed": seed, "k": k, "shard": sh, "thorough": tier == Tier::Thorough}));
             }
         }
         v
@@ -539,7 +551,7 @@ impl Check for C04 {
             }
             out.violations.extend(vc);
         }
-        for (i, d) in deviations(&cfg, &r, seed).into_iter().enumerate() {
+        for (i, d) in deviations_ex(&cfg, &r, seed, case["thorough"].as_bool().unwrap_or(false)).into_iter().enumerate() {
             if i as u64 % 4 != shard {
                 continue;
             }
